@@ -49,6 +49,7 @@ type Case struct {
 	Pkgs     []*Package
 	Convs    []*Converter
 	Args     []string // CLI args before patterns
+	RawArgs  []string // if non-nil: the complete argument vector (argv fuzzing)
 	Patterns []string
 	Features map[string]string
 	Note     string
